@@ -19,6 +19,11 @@ def run(ctx):
                 for mode in ("hkdf", "expand", "kdf"):
                     jobs.append((exe, [mode, a, pat, t], be))
             jobs.append((exe, ["pbkdf2", 0, pat, t], be))
+    # work model of the PBKDF2 iteration count over the whole range of unsigned long (harness/c05_work.c)
+    for be in (backends if ctx.thorough else ["asm", "c32"]):
+        lib = build.build_lib(be)
+        wexe = build.build_prog("c05_work", ["harness/c05_work.c"], lib, opt="-O2", link=["-Wl,--wrap=ascon_permute"])
+        jobs.append((wexe, [1 if ctx.thorough else 0, 0, 0], be))
     common.parallel(lambda j: common.run_harness(ctx, j[0], j[1], label=j[2]), jobs)
     common.align_jobs(ctx, jobs, lambda j: j[2] in ("asm", "c64") and j[1][2] == 3)
     # long one-shot KDF outputs (the declared length is the output length): 128 KiB+1 .. 16 MiB+3, and 2^29 bytes (the limit of the declared-length field; thorough: also 2^29-1 and 2^29+9)
@@ -32,6 +37,7 @@ def run(ctx):
     ctx.assumptions += [
         "RFC 5869 over the reference HMAC; absent salt == empty salt (both give a zero block key); RFC 8018 with INT(i) big-endian from 1, count 0 treated as 1",
         "PBKDF2 PRF = cXOF('PBKDF2', custom = password, declared 32) as documented in pbkdf2.h; KDF = cXOF('KDF', custom, declared = outlen)(key)",
+        "PBKDF2 counts that no run can finish (2^31 .. ULONG_MAX): decided through the work model -- permutation calls are affine in the count for counts 1..N (outputs judged against the reference), and a call with such a count must still be running after K iterations' worth of permutation calls",
         "after a refused expand request only the refusal, the served prefix and the zero-filled tail are judged",
     ]
     cov = dict(evaluations=ctx.stats.get("evaluations", 0), distinct_nontrivial=ctx.stats.get("nontrivial", 0),
